@@ -103,3 +103,20 @@ Proof. reflexivity. Qed.
 Example canon_ex2 :
   sub_expr (build (TMul (TAddInt (TAddStr TZero "x") 2) 3)) (build (TAddTerm TZero "x" true 3)) = mkE 6 [].
 Proof. reflexivity. Qed.
+
+(* corollaries: what cancels leaves nothing behind *)
+Corollary sub_self e : NF e -> sub_expr e e = zero.
+Proof. intros He. apply sem_eq_iff_sub_zero; [exact He | reflexivity]. Qed.
+
+Corollary mul_zero e : NF e -> mul e 0 = zero.
+Proof.
+  intros He. apply zero_canonical; [apply mul_NF; exact He|].
+  intros a; rewrite mul_eval; lia.
+Qed.
+
+Corollary add_sub_cancel e f : NF e -> NF f -> sub_expr (sub_expr (add_expr e f) f) e = zero.
+Proof.
+  intros He Hf. apply sem_eq_iff_sub_zero.
+  - apply sub_expr_NF, add_expr_NF; exact He.
+  - intros a. rewrite sub_expr_eval, add_expr_eval. lia.
+Qed.
